@@ -36,26 +36,26 @@ type pcMethod struct {
 
 // the argument struct each dispatched method decodes into (x/*/precompile/*.go: UnpackInput)
 var argStructs = map[string]func() fxevmtypes.MethodArgs{
-	"staking.allowanceShares":        func() fxevmtypes.MethodArgs { return new(stakingtypes.AllowanceSharesArgs) },
-	"staking.approveShares":          func() fxevmtypes.MethodArgs { return new(stakingtypes.ApproveSharesArgs) },
-	"staking.delegateV2":             func() fxevmtypes.MethodArgs { return new(stakingtypes.DelegateV2Args) },
-	"staking.delegation":             func() fxevmtypes.MethodArgs { return new(stakingtypes.DelegationArgs) },
-	"staking.delegationRewards":      func() fxevmtypes.MethodArgs { return new(stakingtypes.DelegationRewardsArgs) },
-	"staking.redelegateV2":           func() fxevmtypes.MethodArgs { return new(stakingtypes.RedelegateV2Args) },
-	"staking.slashingInfo":           func() fxevmtypes.MethodArgs { return new(stakingtypes.SlashingInfoArgs) },
-	"staking.transferShares":         func() fxevmtypes.MethodArgs { return new(stakingtypes.TransferSharesArgs) },
-	"staking.transferFromShares":     func() fxevmtypes.MethodArgs { return new(stakingtypes.TransferFromSharesArgs) },
-	"staking.undelegateV2":           func() fxevmtypes.MethodArgs { return new(stakingtypes.UndelegateV2Args) },
-	"staking.validatorList":          func() fxevmtypes.MethodArgs { return new(stakingtypes.ValidatorListArgs) },
-	"staking.withdraw":               func() fxevmtypes.MethodArgs { return new(stakingtypes.WithdrawArgs) },
-	"crosschain.bridgeCall":          func() fxevmtypes.MethodArgs { return new(crosschaintypes.BridgeCallArgs) },
-	"crosschain.bridgeCoinAmount":    func() fxevmtypes.MethodArgs { return new(crosschaintypes.BridgeCoinAmountArgs) },
+	"staking.allowanceShares":         func() fxevmtypes.MethodArgs { return new(stakingtypes.AllowanceSharesArgs) },
+	"staking.approveShares":           func() fxevmtypes.MethodArgs { return new(stakingtypes.ApproveSharesArgs) },
+	"staking.delegateV2":              func() fxevmtypes.MethodArgs { return new(stakingtypes.DelegateV2Args) },
+	"staking.delegation":              func() fxevmtypes.MethodArgs { return new(stakingtypes.DelegationArgs) },
+	"staking.delegationRewards":       func() fxevmtypes.MethodArgs { return new(stakingtypes.DelegationRewardsArgs) },
+	"staking.redelegateV2":            func() fxevmtypes.MethodArgs { return new(stakingtypes.RedelegateV2Args) },
+	"staking.slashingInfo":            func() fxevmtypes.MethodArgs { return new(stakingtypes.SlashingInfoArgs) },
+	"staking.transferShares":          func() fxevmtypes.MethodArgs { return new(stakingtypes.TransferSharesArgs) },
+	"staking.transferFromShares":      func() fxevmtypes.MethodArgs { return new(stakingtypes.TransferFromSharesArgs) },
+	"staking.undelegateV2":            func() fxevmtypes.MethodArgs { return new(stakingtypes.UndelegateV2Args) },
+	"staking.validatorList":           func() fxevmtypes.MethodArgs { return new(stakingtypes.ValidatorListArgs) },
+	"staking.withdraw":                func() fxevmtypes.MethodArgs { return new(stakingtypes.WithdrawArgs) },
+	"crosschain.bridgeCall":           func() fxevmtypes.MethodArgs { return new(crosschaintypes.BridgeCallArgs) },
+	"crosschain.bridgeCoinAmount":     func() fxevmtypes.MethodArgs { return new(crosschaintypes.BridgeCoinAmountArgs) },
 	"crosschain.cancelSendToExternal": func() fxevmtypes.MethodArgs { return new(crosschaintypes.CancelSendToExternalArgs) },
-	"crosschain.crossChain":          func() fxevmtypes.MethodArgs { return new(crosschaintypes.CrossChainArgs) },
-	"crosschain.executeClaim":        func() fxevmtypes.MethodArgs { return new(crosschaintypes.ExecuteClaimArgs) },
-	"crosschain.hasOracle":           func() fxevmtypes.MethodArgs { return new(crosschaintypes.HasOracleArgs) },
-	"crosschain.increaseBridgeFee":   func() fxevmtypes.MethodArgs { return new(crosschaintypes.IncreaseBridgeFeeArgs) },
-	"crosschain.isOracleOnline":      func() fxevmtypes.MethodArgs { return new(crosschaintypes.IsOracleOnlineArgs) },
+	"crosschain.crossChain":           func() fxevmtypes.MethodArgs { return new(crosschaintypes.CrossChainArgs) },
+	"crosschain.executeClaim":         func() fxevmtypes.MethodArgs { return new(crosschaintypes.ExecuteClaimArgs) },
+	"crosschain.hasOracle":            func() fxevmtypes.MethodArgs { return new(crosschaintypes.HasOracleArgs) },
+	"crosschain.increaseBridgeFee":    func() fxevmtypes.MethodArgs { return new(crosschaintypes.IncreaseBridgeFeeArgs) },
+	"crosschain.isOracleOnline":       func() fxevmtypes.MethodArgs { return new(crosschaintypes.IsOracleOnlineArgs) },
 }
 
 func (h *harness) precompileMethods() []pcMethod {
@@ -159,6 +159,9 @@ func (h *harness) abiValue(t abi.Type, name string, valid int) reflect.Value {
 		return v
 	case abi.SliceTy:
 		n := []int{0, 1, 2, 3}[r.Intn(4)]
+		if f, ok := h.forceLen[name]; ok {
+			n = f
+		}
 		v := reflect.MakeSlice(t.GetType(), n, n)
 		for i := 0; i < n; i++ {
 			v.Index(i).Set(h.abiValue(*t.Elem, name, valid))
@@ -256,19 +259,7 @@ func (h *harness) stagePrecompiles() {
 		} else if pm.NewArgs == nil {
 			h.rep.Count("precompile:no-arg-struct-known:" + label)
 		}
-		n := 60 * h.scale
-		for i := 0; i < n; i++ {
-			valid := []int{100, 95, 80, 50, 0}[h.r.Intn(5)]
-			args, ok := h.packArgs(pm.Method, valid)
-			how := fmt.Sprintf("abi(valid=%d%%)", valid)
-			if !ok {
-				args = randBytes(h.r, h.r.Intn(100))
-				how = "random"
-			}
-			if h.r.Chance(55) {
-				args = h.damageCalldata(args)
-				how += "+damage"
-			}
+		one := func(args []byte, how string) {
 			data := append(append([]byte{}, pm.Method.ID...), args...)
 			// direct route
 			if pm.NewArgs != nil {
@@ -301,6 +292,51 @@ func (h *harness) stagePrecompiles() {
 				h.fail("precompile-run", "recovered-by-baseapp", oe, label+" panics inside the EVM call",
 					map[string]interface{}{"stage": "precompile-evm", "contract": pm.Contract, "method": pm.Method.Name, "calldata_hex": fmt.Sprintf("%x", data), "value": value.String(), "how": how, "panic": oe.Msg, "top_frame": oe.Top})
 			}
+		}
+		// deterministic grid: every combination of lengths 0..2 of the array arguments, everything else well-formed
+		// (paired arrays such as _tokens/_amounts are indexed by one another in Run)
+		var arrays []string
+		for _, in := range pm.Method.Inputs {
+			if in.Type.T == abi.SliceTy {
+				arrays = append(arrays, in.Name)
+			}
+		}
+		if len(arrays) > 0 && len(arrays) <= 3 {
+			total := 1
+			for range arrays {
+				total *= 3
+			}
+			for c := 0; c < total; c++ {
+				h.forceLen = map[string]int{}
+				x := c
+				var desc []string
+				for _, a := range arrays {
+					h.forceLen[a] = x % 3
+					desc = append(desc, fmt.Sprintf("%s=%d", a, x%3))
+					x /= 3
+				}
+				for rep := 0; rep < 3; rep++ {
+					if args, ok := h.packArgs(pm.Method, 100); ok {
+						one(args, "abi(valid=100%) array lengths "+strings.Join(desc, ","))
+					}
+				}
+			}
+			h.forceLen = nil
+		}
+		n := 60 * h.scale
+		for i := 0; i < n; i++ {
+			valid := []int{100, 95, 80, 50, 0}[h.r.Intn(5)]
+			args, ok := h.packArgs(pm.Method, valid)
+			how := fmt.Sprintf("abi(valid=%d%%)", valid)
+			if !ok {
+				args = randBytes(h.r, h.r.Intn(100))
+				how = "random"
+			}
+			if h.r.Chance(55) {
+				args = h.damageCalldata(args)
+				how += "+damage"
+			}
+			one(args, how)
 		}
 	}
 	// unknown selectors, short inputs
